@@ -365,7 +365,7 @@ class ModelScenario(history.Scenario):
         gk, yk, tk = np.array(gk, dtype=float), np.array(yk, dtype=float), np.array(tk, dtype=float)
         gx, yx, tx = np.array(gx, dtype=float), np.array(yx, dtype=float), np.array(tx, dtype=float)
         self.evals += 1
-        self.clip[win.label] = len(gk)
+        self.clip.setdefault(ts.idx, {})[win.label] = len(gk)
         ev = dict(nk=len(gk), nx=len(gx), nreq=0, gdev=absdev(gk, gx) if gk.shape == gx.shape else CAP,
                   ng=ts.ng, ngw=int(len(np.atleast_1d(h.ktabs[sorted(ts.grids)[0]].weights))),
                   dev=0, slack=0, lo=0, tmin=0, tmax=0, S=S_T)
@@ -407,7 +407,8 @@ def scenarios(ctx, root, log, thorough=False):
     W4 = [0.05, 0.15, 0.3, 0.5]
     A = TableSet(root, 0, {'H2O': un}, W4, 0.0)                                   # degenerate, uniform grid
     B = TableSet(root, 1, {'H2O': un}, [0.4, 0.3, 0.2, 0.1], 2.0)                 # generic, same number of points, other weights
-    C = TableSet(root, 2, {'H2O': un}, [0.25, 0.25, 0.5], 0.0)                    # degenerate, 3 points
+    other = uniform_native(n=33, start=650.0, step=120.0)
+    C = TableSet(root, 2, {'H2O': other}, [0.25, 0.25, 0.5], 0.0)                 # degenerate, 3 points, another native grid
     G = TableSet(root, 3, {'H2O': ge}, [2.0 / 3.0, 1.0 / 3.0], 0.0)               # degenerate, constant-resolution grid
     D = TableSet(root, 4, {'H2O': un, 'CH4': coarse}, W4, 0.0)                    # two molecules on different native grids
     Tn, Pn = [900.0, 1234.5, 2100.0], [1e3, 3.7e4, 1e6]
@@ -452,8 +453,11 @@ def self_check(scs, log):
         if s.evals == 0:
             raise Machinery('history scenario %s was never evaluated' % s.name)
         if isinstance(s, ModelScenario) and 'window' in s.settings:
-            sizes = sorted(s.clip.values())
-            if len(sizes) < 2 or not any(a == b for a, b in zip(sizes, sizes[1:])):
+            same = False
+            for per_set in s.clip.values():
+                sizes = sorted(per_set.values())
+                same = same or any(a == b for a, b in zip(sizes, sizes[1:]))
+            if not same:
                 raise Machinery('%s: no two windows clip to equally many native points: %r' % (s.name, s.clip))
     missing = {'size', 'first', 'ends', 'full'} - seen
     if missing:
